@@ -6,6 +6,7 @@ import (
 	"fmt"
 	"os"
 	"path/filepath"
+	"runtime"
 	"sort"
 	"strings"
 	"sync/atomic"
@@ -51,6 +52,37 @@ var (
 )
 
 func progress() { lastProgress.Store(time.Now().UnixNano()) }
+
+// CurrentStats is the Stats object the running stream created last (nil before the first one).
+func CurrentStats() *Stats { return curStats.Load() }
+
+// CurrentTracePos flushes the trace being written and returns its path and the number of lines written.
+func CurrentTracePos() (string, int) {
+	w := curW.Load()
+	if w == nil {
+		return "", 0
+	}
+	w.bw.Flush()
+	return w.Path, w.Lines
+}
+
+// PanicFrames renders the innermost n frames of the panicking goroutine (called from a deferred function).
+func PanicFrames(n int) string {
+	pc := make([]uintptr, 64)
+	k := runtime.Callers(3, pc)
+	frames := runtime.CallersFrames(pc[:k])
+	var out []string
+	for len(out) < n {
+		f, more := frames.Next()
+		if !strings.HasPrefix(f.Function, "runtime.") {
+			out = append(out, fmt.Sprintf("%s (%s:%d)", f.Function, filepath.Base(f.File), f.Line))
+		}
+		if !more {
+			break
+		}
+	}
+	return strings.Join(out, " <- ")
+}
 
 // StartWatchdog makes the process report a violation and exit when the stream makes no progress
 // for `limit`: the library did not return from a call (or crawls).  The violation carries the trace
@@ -156,6 +188,7 @@ func (s *Stats) Emit() {
 	if e, _ := ioError.Load().(string); e != "" {
 		s.IOErr = e
 	}
+	drainRegFindings(s)
 	b, _ := json.Marshal(s)
 	fmt.Println("STATS " + string(b))
 }
